@@ -14,6 +14,15 @@ def clean():
     out=subprocess.run(["git","-C",REPO,"status","--porcelain","--untracked-files=no"],capture_output=True,text=True).stdout.strip()
     return out==""
 
+def record(name,pid,verdict,detail):
+    """merge one verdict into mutants/RESULTS.json (the kill matrix quoted in DESIGN.md)"""
+    p=os.path.join(ROOT,"mutants","RESULTS.json")
+    r=json.load(open(p)) if os.path.exists(p) else {}
+    e=r.setdefault(name,{"verdicts":{},"first_violation":{}})
+    e["verdicts"][pid]=verdict
+    if detail: e["first_violation"][pid]=detail
+    json.dump(r,open(p,"w"),indent=1,sort_keys=True)
+
 def main():
     args=[a for a in sys.argv[1:] if not a.startswith("--")]
     tier="quick"
@@ -53,6 +62,7 @@ def main():
                 if det: print("    "+det[0].strip()[:300])
                 if verdict=="INCONCLUSIVE": print("    "+r.stdout[-400:].replace("\n"," | "))
                 results.append((name,pid,verdict))
+                record(name,pid,verdict,det[0].strip()[:300] if det else "")
         finally:
             subprocess.run(["git","-C",REPO,"checkout","--","."])
     assert clean()
